@@ -6,7 +6,7 @@ package aggregations
 
 //@ fileprops C16
 
-//@ func search.NumericValuesSource.Numbers(recv, d) (vals)
+//@ func github.com/blugelabs/bluge/search.NumericValuesSource.Numbers(recv, d) (vals)
 //@   interface
 //@   pure
 
@@ -49,7 +49,7 @@ package aggregations
 
 // terms aggregation: total counts every hit exactly once, however many values the hit has for
 // the field (Finish derives `other` from it); every value of the hit feeds exactly one bucket
-//@ func search.TextValuesSource.Values(recv, d) (vals)
+//@ func github.com/blugelabs/bluge/search.TextValuesSource.Values(recv, d) (vals)
 //@   interface
 //@   pure
 //@ func TermsCalculator.Consume
